@@ -220,8 +220,13 @@ def advertised(case_groups: list[dict[str, Any]]) -> dict[str, float]:
     }
 
 
-def request_power(case_groups: list[dict[str, Any]], req: dict[str, Any]) -> float:
-    """An admitted, non-zero request derived from the case's request descriptor."""
+def request_power(case_groups: list[dict[str, Any]], req: dict[str, Any], nudge: bool = False) -> float:
+    """An admitted, non-zero request derived from the case's request descriptor.
+
+    nudge=True moves a request that sits exactly on the advertised exclusion bound outward by 1e-9
+    (relative): the manager sums the same bounds in another order, so "exactly on the bound" can be one
+    ulp inside its own bound and would be rejected for float-noise reasons only.
+    """
     adv = advertised(case_groups)
     up = req["sign"] > 0
     incl = adv["incl_up"] if up else adv["incl_lo"]
@@ -239,6 +244,8 @@ def request_power(case_groups: list[dict[str, Any]], req: dict[str, Any]) -> flo
             mag = incl
     else:
         mag = max(incl, excl) * (1.0 + frac) + 1.0
+    if nudge and kind in ("excl", "near_excl"):
+        mag *= 1.0 + 1e-9
     return mag if up else -mag
 
 
